@@ -13,7 +13,7 @@ def warm_layouts():
     layouts.load_cases("Layouts_chain.cfg")
     import common as C
     for m, c in [("History", "History_c06_quick.cfg"), ("History", "History_c07_quick.cfg"),
-                 ("History", "History_c07scan_quick.cfg"), ("History", "History_c07chain_quick.cfg"),
+                 ("History", "History_c07scan_quick.cfg"), ("History", "History_c07chain_quick.cfg"), ("History", "History_c07mod_quick.cfg"),
                  ("DepGraphs", "DepGraphs_cycles.cfg"), ("DepGraphs", "DepGraphs_scopes.cfg"),
                  ("Layouts", "Layouts_cli.cfg")]:
         C.run_tlc(m, c, workers=12, timeout=7200)
